@@ -377,13 +377,35 @@ class FrameResultCorr(Corr):
         fr = PerceptionFrameResult(list(results), fgt, ec.metrics_config, crit, pf, 100, ec.target_labels)
         fr.evaluate_frame()
         obs.update(observe_frame(fr, ests, gts, results))
+        # the SAME result objects judged once more under other pass/fail thresholds (a re-evaluation of stored frame results, as
+        # filter_frame_by_distance-style tooling does): the judgement must depend on the thresholds given now, not on the earlier call
+        if pf.matching_threshold_list is not None:
+            from perception_eval.evaluation.result.perception_pass_fail_result import PassFailResult
+
+            thr2 = [{0.5: 2.0, 1.0: 0.5, 2.0: 1.0, 3.0: 0.5}.get(t, 1.0) for t in pf.matching_threshold_list]
+            pf2 = pf_config(ec, dict(case["pf"], thresholds=thr2))
+            p2 = PassFailResult(100, 0, crit, pf2, transforms=fgt.transforms)
+            p2.evaluate(fr.object_results, fr.frame_ground_truth.objects)
+
+            class _Fr:       # the same frame with the second judgement
+                object_results, frame_ground_truth, pass_fail_result = fr.object_results, fr.frame_ground_truth, p2
+            o2 = observe_frame(_Fr, ests, gts, results)
+            o2["pf_thresholds"] = pf2.matching_threshold_list
+            obs["second"] = o2
         return obs
 
     def coq_term(self, case, obs):
         crit, pf, rs, gts = encode_frame_terms(case, obs)
         ids = lambda l: llit([str(x) for x in l])  # noqa: E731
-        return (f"check_frame {crit} {pf} {rs} {gts} {pairs_lit(obs['results'])} {ids(obs['gts'])} {pairs_lit(obs['tp'])} "
-                f"{pairs_lit(obs['fp'])} {ids(obs['tn'])} {ids(obs['fn'])} {obs['num_success']} {obs['num_fail']}")
+        first = (f"check_frame {crit} {pf} {rs} {gts} {pairs_lit(obs['results'])} {ids(obs['gts'])} {pairs_lit(obs['tp'])} "
+                 f"{pairs_lit(obs['fp'])} {ids(obs['tn'])} {ids(obs['fn'])} {obs['num_success']} {obs['num_fail']}")
+        if "second" not in obs:
+            return first
+        o2 = obs["second"]
+        _, pf2, _, _ = encode_frame_terms(case, dict(obs, pf_thresholds=o2["pf_thresholds"]))
+        second = (f"check_frame {crit} {pf2} {rs} {gts} {pairs_lit(o2['results'])} {ids(o2['gts'])} {pairs_lit(o2['tp'])} "
+                  f"{pairs_lit(o2['fp'])} {ids(o2['tn'])} {ids(o2['fn'])} {o2['num_success']} {o2['num_fail']}")
+        return f"(({first}) && ({second}))%bool"
 
     def coq_debug(self, case, obs):
         crit, pf, rs, gts = encode_frame_terms(case, obs)
@@ -393,7 +415,13 @@ class FrameResultCorr(Corr):
     def oracle(self, case, obs):
         if len(set(obs["gt_keys"])) != len(obs["gt_keys"]):
             return None      # ground truths with equal __eq__ keys: outside the quantifier (never generated)
-        return accounting_oracle(case, obs)
+        r = accounting_oracle(case, obs)
+        if r is None and "second" in obs:
+            o2 = dict(obs, **obs["second"])
+            r = accounting_oracle(case, o2)
+            if r:
+                r = "second judgement of the same results under thresholds " + str(obs["second"]["pf_thresholds"]) + ": " + r
+        return r
 
     def nontrivial(self, case, obs):
         if "tp" not in obs:
